@@ -136,7 +136,8 @@ impl Check for C18 {
                 fs.plan(A_MK, FilePlan { write: mk(&io, 2, text_len as u64, true), read: stage_pol(&io), ..Default::default() });
                 fs.plan(B_GDS, FilePlan { write: mk(&io, 3, bytes0.len() as u64, true), ..Default::default() });
                 let before = io.borrow().errors_returned.len();
-                let o1 = ToMarkupOptions { gds: A_GDS.into(), fmt: fmt_name(fmt).into(), out: A_MK.into(), verbose: false };
+                let verbose = io.borrow_mut().ftape.chance(1, 3);
+                let o1 = ToMarkupOptions { gds: A_GDS.into(), fmt: fmt_name(fmt).into(), out: A_MK.into(), verbose };
                 let r1 = guard(|| to_markup(&o1).map_err(|e| e.to_string()));
                 let fired1 = io.borrow().errors_returned.len() > before;
                 let ok1 = match r1 {
@@ -158,7 +159,7 @@ impl Check for C18 {
                     Ok(Ok(())) => true,
                 };
                 if ok1 && out.violation.is_none() {
-                    let o2 = FromMarkupOptions { gds: B_GDS.into(), fmt: fmt_name(fmt).into(), inp: A_MK.into(), verbose: false };
+                    let o2 = FromMarkupOptions { gds: B_GDS.into(), fmt: fmt_name(fmt).into(), inp: A_MK.into(), verbose };
                     let before2 = io.borrow().errors_returned.len();
                     let r2 = guard(|| from_markup(&o2).map_err(|e| e.to_string()));
                     let fired2 = io.borrow().errors_returned.len() > before2;
